@@ -68,6 +68,11 @@ var registry = map[string]*Check{}
 // Register adds a check (called from init functions of harness files).
 func Register(c *Check) { registry[c.Name] = c }
 
+// BenignCrash, when set by the harness of a package, classifies a panic of the program under test as a
+// documented fail-stop that no property forbids (it returns the name of the probe to count, or "" for any
+// other crash). It is consulted before the check's judge.
+var BenignCrash func(res *Result) string
+
 func defaultJudge(res *Result) *Violation {
 	if res.Crash != nil {
 		frame := res.Crash.Frame
@@ -130,6 +135,13 @@ func RunOne(t *testing.T, c *Check, conf string, seed uint64, run int, replay []
 	res := Run(t, cfg, func() { c.Body(env) })
 	out := &RunOutcome{Res: res, Ops: env.ops, OpHash: env.opHash, Sample: env.sample, Dir: dir}
 	out.Violation = res.Violation
+	if res.Crash != nil && BenignCrash != nil {
+		if probe := BenignCrash(res); probe != "" {
+			// a classified, documented fail-stop of the program: the run simply ended there
+			res.Probes[probe]++
+			res.Crash = nil
+		}
+	}
 	if out.Violation == nil && !res.Budget {
 		judge := c.Judge
 		if judge == nil {
